@@ -111,6 +111,9 @@ type layer struct {
 	RRand      float64
 	UAct       string // kUser: context action before the inner call (ctxActs, never "setback")
 	URestore   bool   // kUser: deferred msg.SetContext(<context seen on entry>) after the inner call
+	UMPre      string // kUser, in-meta classes: metadata action on the consumed message before the inner call (inmeta.go)
+	UMPost     string // kUser, in-meta classes: metadata action after the inner call returned ("restore": the id seen on entry)
+	UMDefer    bool   // kUser, in-meta classes: the post action is deferred (also runs when the inner call panics)
 }
 
 func (l layer) String() string {
@@ -128,6 +131,13 @@ func (l layer) String() string {
 	case kRetry:
 		return fmt.Sprintf("Retry(max=%d,interval=%v,maxElapsed=%v,rand=%v)", l.MaxRetries, l.RInterval, l.RElapsed, l.RRand)
 	case kUser:
+		if l.UMPre != "" || l.UMPost != "" {
+			d := ""
+			if l.UMDefer {
+				d = ",deferred"
+			}
+			return fmt.Sprintf("UserMW(meta pre=%s,post=%s%s)", l.UMPre, l.UMPost, d)
+		}
 		if l.URestore {
 			return fmt.Sprintf("UserMW(ctx=%s,restore)", l.UAct)
 		}
@@ -149,6 +159,9 @@ type step struct {
 	echo         bool   // values classes: the consumed message itself is one of the outputs (inserted at echoPos when the input exists)
 	echoPos      int
 	echoDone     bool
+	MAct         string // in-meta classes: what the handler does to the consumed message's metadata during this call (inmeta.go)
+	MWhen        string // in-meta classes: "before" | "after" the outputs are produced (stamped)
+	stamp        bool   // in-meta classes: the handler itself copies the id the consumed message has at that moment onto its outputs
 }
 
 func (s step) String() string {
@@ -170,6 +183,12 @@ func (s step) String() string {
 	if s.CtxAct != "" {
 		d += "@ctx=" + s.CtxAct
 	}
+	if s.MAct != "" || s.stamp {
+		d += "@meta=" + s.MWhen + ":" + s.MAct
+		if s.stamp {
+			d += "+stamp"
+		}
+	}
 	return d
 }
 
@@ -188,6 +207,8 @@ type scenario struct {
 	yields   int        // concurrent classes: runtime.Gosched() calls of the handler between producing and returning
 	errMode  bool       // errshapes classes: handler errors in every wrapper shape around listed / unlisted errors (errshape.go)
 	nilCause bool       // errshapes/nil-cause: errors of a Cause()-capable type without a cause
+	metaMode bool       // in-meta classes: handler steps and UserMW layers change the consumed message's metadata during the call (inmeta.go)
+	inCorrEK bool       // in-meta classes: the message arrives with the correlation_id key present but empty
 }
 
 func (sc *scenario) shape() chainShape {
@@ -216,6 +237,9 @@ func (sc *scenario) scriptStr() string {
 
 func (sc *scenario) describe() string {
 	d := fmt.Sprintf("chain=[%s] handler-script=[%s] input(corr=%q preDelay=%v ctx=%d)", sc.chainStr(), sc.scriptStr(), sc.inCorr, sc.preDelay, sc.ctxKind)
+	if sc.inCorrEK {
+		d += " (correlation_id key present, empty)"
+	}
 	if sc.shared != nil {
 		d += " | " + sc.shared.note
 	}
@@ -319,6 +343,7 @@ type genOpts struct {
 	layers   []layer // use this already parametrised chain (concurrent classes: one wrapped handler, many messages)
 	errMode  bool    // handler errors in every wrapper shape around listed / unlisted errors (errshape.go)
 	nilCause bool    // with errMode: also errors of a Cause()-capable type whose Cause() returns nil
+	metaMode bool    // the consumed message's metadata changes during the call (inmeta.go); implies noWait
 }
 
 func genScenario(r *vlib.Rand, id string, shape chainShape, ctxMode bool) *scenario {
@@ -327,7 +352,7 @@ func genScenario(r *vlib.Rand, id string, shape chainShape, ctxMode bool) *scena
 
 func genScenarioOpts(r *vlib.Rand, id string, shape chainShape, o genOpts) *scenario {
 	ctxMode := o.ctxMode
-	sc := &scenario{id: id, ctxMode: ctxMode, valMode: o.valMode, errMode: o.errMode, nilCause: o.nilCause}
+	sc := &scenario{id: id, ctxMode: ctxMode, valMode: o.valMode, errMode: o.errMode, nilCause: o.nilCause, metaMode: o.metaMode}
 	bases := baseErrors()
 	var pool *valPool
 	if o.valMode {
@@ -345,7 +370,7 @@ func genScenarioOpts(r *vlib.Rand, id string, shape chainShape, o genOpts) *scen
 			}
 		}
 	}
-	sc.useWait = !ctxMode && !o.noWait && hasT && !tOutsideRetry && r.Chance(0.35)
+	sc.useWait = !ctxMode && !o.noWait && !o.metaMode && hasT && !tOutsideRetry && r.Chance(0.35)
 	nRetry := 0
 	for _, k := range shape {
 		if k == kRetry {
@@ -406,8 +431,12 @@ func genScenarioOpts(r *vlib.Rand, id string, shape chainShape, o genOpts) *scen
 			}
 			sc.maxCalls *= l.MaxRetries + 1
 		case kUser:
-			l.UAct = userActs[r.Intn(len(userActs))]
-			l.URestore = r.Chance(0.35)
+			if o.metaMode {
+				genUserMeta(r, &l)
+			} else {
+				l.UAct = userActs[r.Intn(len(userActs))]
+				l.URestore = r.Chance(0.35)
+			}
 		}
 		sc.chain = append(sc.chain, l)
 	}
@@ -478,10 +507,24 @@ func genScenarioOpts(r *vlib.Rand, id string, shape chainShape, o genOpts) *scen
 		if ctxMode && !r.Chance(0.12) {
 			st.CtxAct = handlerActs[r.Intn(len(handlerActs))]
 		}
+		if o.metaMode {
+			genStepMeta(r, &st)
+		}
 		sc.script = append(sc.script, st)
 	}
 	if r.Chance(0.75) {
 		sc.inCorr = "corr-" + id
+	}
+	if o.metaMode {
+		// the message that "enters the system" here: half of them arrive without an id (10%: key present, empty)
+		switch x := r.Intn(100); {
+		case x < 40:
+			sc.inCorr = ""
+		case x < 50:
+			sc.inCorr, sc.inCorrEK = "", true
+		default:
+			sc.inCorr = "corr-" + id
+		}
 	}
 	if r.Chance(0.2) {
 		sc.preDelay = 50*time.Millisecond + time.Duration(r.Uint64()%uint64(3*time.Second))
@@ -536,10 +579,16 @@ type model struct {
 
 	in       *message.Message // the consumed message (it may be among the outputs: values classes)
 	echoCorr bool             // CorrelationID saw the consumed message, lacking an id, among the outputs
+
+	// the consumed message's metadata as the code inside the chain leaves it (inmeta.go); the delay keys are
+	// carried along but judged through hasDelay / delay
+	meta    map[string]string
+	metaEff map[string]int
+	userInv map[int]int // invocations so far per UserMW layer
 }
 
 func newModel(sc *scenario) *model {
-	m := &model{sc: sc, corr: map[*message.Message]string{}, eff: map[string]int{}, ctxEff: map[string]int{}}
+	m := &model{sc: sc, corr: map[*message.Message]string{}, eff: map[string]int{}, ctxEff: map[string]int{}, metaEff: map[string]int{}, userInv: map[int]int{}}
 	m.callerCtx = &sctx{kind: "caller", seq: -1}
 	m.ctx = m.callerCtx
 	for _, st := range sc.script {
@@ -567,6 +616,9 @@ func (m *model) handler() mOut {
 		m.ctxAtCall = append(m.ctxAtCall, m.ctx)
 	}
 	m.ctx = m.applyAct(st.CtxAct, m.ctx)
+	if m.sc.metaMode {
+		m.handlerMeta(st, idx)
+	}
 	switch st.Kind {
 	case "panic":
 		return mOut{panicked: true, pst: st}
@@ -604,11 +656,28 @@ func (m *model) eval(i int) mOut {
 		return o
 	case kUser:
 		seen := m.ctx
-		m.ctxEff["ctx_user_mw"]++
+		if l.UAct != "" {
+			m.ctxEff["ctx_user_mw"]++
+		}
 		m.ctx = m.applyAct(l.UAct, seen)
+		inv := m.userInv[i]
+		m.userInv[i]++
+		entryCorr, entryHas := m.meta[middleware.CorrelationIDMetadataKey]
+		if l.UMPre != "" {
+			m.metaEff["inmeta_user_pre_"+l.UMPre]++
+			applyMeta(&m.meta, l.UMPre, userMetaVal(m.sc, i, inv, "a"))
+		}
 		o := m.eval(i + 1)
 		if l.URestore {
 			m.ctx = seen
+		}
+		if l.UMPost != "" && (!o.panicked || l.UMDefer) {
+			m.metaEff["inmeta_user_post_"+l.UMPost]++
+			if l.UMPost == "restore" {
+				restoreCorr(m.meta, entryCorr, entryHas)
+			} else {
+				applyMeta(&m.meta, l.UMPost, userMetaVal(m.sc, i, inv, "b"))
+			}
 		}
 		return o
 	case kBreaker:
@@ -618,7 +687,14 @@ func (m *model) eval(i int) mOut {
 		m.eff["rate_wait"]++
 		return m.eval(i + 1)
 	case kCorr:
+		entryID := m.meta[middleware.CorrelationIDMetadataKey]
 		o := m.eval(i + 1)
+		// "ID is based on ID from message received by handler": the id the consumed message carries when the
+		// outputs exist, i.e. when the inner call has returned - see the Assumptions text (in-meta classes)
+		id := m.meta[middleware.CorrelationIDMetadataKey]
+		if id != entryID {
+			m.metaEff["inmeta_corr_layer_id_changed_during_call"]++
+		}
 		if !o.panicked {
 			for _, out := range o.outs {
 				if out == m.in {
@@ -630,9 +706,14 @@ func (m *model) eval(i int) mOut {
 					}
 				}
 				if m.corr[out] == "" {
-					m.corr[out] = m.sc.inCorr
-					if m.sc.inCorr != "" {
+					m.corr[out] = id
+					if id != "" {
 						m.eff["corr_copied"]++
+						if id != entryID {
+							m.metaEff["inmeta_corr_copied_id_set_during_call"]++
+						}
+					} else if entryID != "" {
+						m.metaEff["inmeta_corr_id_removed_during_call_not_copied"]++
 					}
 				} else {
 					m.eff["corr_kept"]++
@@ -732,6 +813,8 @@ type realRun struct {
 
 	made    []madeCtx // contexts installed by the handler / UserMW layers, in creation order
 	cancels []func()
+
+	userInv map[int]int // in-meta classes: invocations so far per UserMW layer
 }
 
 func stopThrottle(t *middleware.Throttle) {
@@ -810,7 +893,7 @@ func (sc *scenario) build(h message.HandlerFunc, rr *realRun) (message.HandlerFu
 				}}
 			h = mwRetry(rt, h)
 		case kUser:
-			h = userMW(l, rr, h)
+			h = userMW(l, i, sc, rr, h)
 		}
 	}
 	return h, func() {
@@ -881,6 +964,7 @@ type runStats struct {
 	result  string
 	eff     map[string]int
 	ctxEff  map[string]int
+	metaEff map[string]int
 
 	ambiguous bool
 }
@@ -907,7 +991,7 @@ func newPrep(sc *scenario) *prep {
 	in := message.NewMessage(sc.id+"-in", []byte("payload-"+sc.id))
 	in.Metadata.Set("k-a", "v1")
 	in.Metadata.Set("k-b", "")
-	if sc.inCorr != "" {
+	if sc.inCorr != "" || sc.inCorrEK {
 		in.Metadata.Set(middleware.CorrelationIDMetadataKey, sc.inCorr)
 	}
 	if sc.preDelay > 0 {
@@ -946,6 +1030,10 @@ func newPrep(sc *scenario) *prep {
 	// --- model
 	p.m = newModel(sc)
 	p.m.in = in
+	p.m.meta = map[string]string{}
+	for k, v := range p.inSnap.Metadata {
+		p.m.meta[k] = v
+	}
 	p.mo = p.m.eval(0)
 	return p
 }
@@ -990,6 +1078,9 @@ func (p *prep) handle(msg *message.Message) ([]*message.Message, error) {
 	rr.obs = append(rr.obs, o)
 	rr.mu.Unlock()
 	rr.applyAct(st.CtxAct, msg)
+	if sc.metaMode {
+		handlerMetaReal(sc, st, idx, msg)
+	}
 	if sc.shared != nil {
 		// concurrent classes: the result is produced; meet the other calls in flight, then yield before returning
 		sc.shared.inHandler(first, st.Kind == "panic")
@@ -1050,7 +1141,7 @@ func runScenario(res *vlib.Result, sc *scenario) runStats {
 		if !res.Failed() {
 			res.Fail("middleware-construct", "building the chain panicked with %#v | %s", pv, sc.describe())
 		}
-		return runStats{eff: p.m.eff, ctxEff: p.m.ctxEff}
+		return runStats{eff: p.m.eff, ctxEff: p.m.ctxEff, metaEff: p.m.metaEff}
 	}
 	go p.exec(chainFn)
 	opts := waitOpts()
@@ -1074,7 +1165,7 @@ func (p *prep) judge(res *vlib.Result, oc vlib.Outcome, dump string) runStats {
 		}
 	}()
 
-	stats := runStats{eff: m.eff, ctxEff: m.ctxEff, calls: rr.calls}
+	stats := runStats{eff: m.eff, ctxEff: m.ctxEff, metaEff: m.metaEff, calls: rr.calls}
 	for _, n := range m.eff {
 		stats.effects += n
 	}
@@ -1306,8 +1397,11 @@ func (p *prep) judge(res *vlib.Result, oc vlib.Outcome, dump string) runStats {
 		fail("input-mutated", "input UUID/payload changed")
 		return stats
 	}
+	// wantMeta: the metadata the consumed message had on entry with the changes the handler / UserMW layers made
+	// during the call (in-meta classes; in all other classes nobody but the middlewares touches it)
+	wantMeta := m.meta
 	keys := map[string]bool{}
-	for k := range inSnap.Metadata {
+	for k := range wantMeta {
 		keys[k] = true
 	}
 	for k := range in.Metadata {
@@ -1317,13 +1411,13 @@ func (p *prep) judge(res *vlib.Result, oc vlib.Outcome, dump string) runStats {
 		if k == delay.DelayedForKey || k == delay.DelayedUntilKey {
 			continue
 		}
-		a, aok := inSnap.Metadata[k]
+		a, aok := wantMeta[k]
 		b, bok := in.Metadata[k]
 		if k == middleware.CorrelationIDMetadataKey && m.echoCorr && a == "" && b == "" {
 			continue
 		}
 		if a != b || aok != bok {
-			fail("input-mutated", "input metadata key %q changed: before (%q,%v) after (%q,%v)", k, a, aok, b, bok)
+			fail("input-mutated", "input metadata key %q changed: as the handler / user code left it (on entry when they did not touch it) (%q,%v), after the chain (%q,%v)", k, a, aok, b, bok)
 			return stats
 		}
 	}
@@ -1352,7 +1446,7 @@ func (p *prep) judge(res *vlib.Result, oc vlib.Outcome, dump string) runStats {
 	for o, snap := range outSnaps {
 		got := o.Metadata.Get(middleware.CorrelationIDMetadataKey)
 		if got != m.corr[o] {
-			fail("correlation-id", "output %s: correlation id %q, expected %q (its own before the call: %q, input's: %q)", o.UUID, got, m.corr[o], snap.Metadata[middleware.CorrelationIDMetadataKey], sc.inCorr)
+			fail("correlation-id", "output %s: correlation id %q, expected %q (its own before the call: %q, consumed message's on entry: %q, after the chain returned: %q)", o.UUID, got, m.corr[o], snap.Metadata[middleware.CorrelationIDMetadataKey], sc.inCorr, in.Metadata.Get(middleware.CorrelationIDMetadataKey))
 			return stats
 		}
 		if o.UUID != snap.UUID || string(o.Payload) != string(snap.Payload) {
@@ -1399,6 +1493,7 @@ func runChainsOpts(e *vlib.Env, class string, shapes []chainShape, scriptsPer in
 	ctxMode := o.ctxMode
 	res := vlib.Result{Class: class}
 	ctxTotal := map[string]int{}
+	metaTotal := map[string]int{}
 	var sigParts []any
 	var samples []map[string]any
 	effTotal := map[string]int{}
@@ -1426,6 +1521,9 @@ func runChainsOpts(e *vlib.Env, class string, shapes []chainShape, scriptsPer in
 			for k, v := range st.ctxEff {
 				ctxTotal[k] += v
 			}
+			for k, v := range st.metaEff {
+				metaTotal[k] += v
+			}
 			if len(samples) < 3 || res.Failed() {
 				samples = append(samples, map[string]any{"chain": sc.chainStr(), "script": sc.scriptStr(), "handler_calls": st.calls, "result": st.result})
 			}
@@ -1448,6 +1546,11 @@ func runChainsOpts(e *vlib.Env, class string, shapes []chainShape, scriptsPer in
 		res.Count(k, v)
 		ctxN += v
 	}
+	metaN := 0
+	for k, v := range metaTotal {
+		res.Count(k, v)
+		metaN += v
+	}
 	valN := 0
 	for k, v := range effTotalVal {
 		res.Count(k, v)
@@ -1462,6 +1565,10 @@ func runChainsOpts(e *vlib.Env, class string, shapes []chainShape, scriptsPer in
 	if o.errMode {
 		// errshapes classes: at least one wrapped / near-listed error was judged by an IgnoreErrors layer
 		res.NonTrivial = eff > 0 && effTotalVal["errshape_wrapped_or_near_listed"] > 0
+	}
+	if o.metaMode {
+		// in-meta classes: the consumed message's metadata was changed during the call inside at least one middleware
+		res.NonTrivial = eff > 0 && metaN > 0
 	}
 	if ctxMode {
 		// ctx-replace classes: at least one context replacement was made inside at least one middleware
